@@ -291,8 +291,10 @@ func (w *treeWorld) burst(kinds []string) {
 		switch x := w.r.Intn(100); {
 		case x < 50:
 			w.srvEvent()
-		case x < 70:
+		case x < 64:
 			w.refilter()
+		case x < 70:
+			w.refilterVolley()
 		case x < 82:
 			w.closeNode()
 		case x < 94:
@@ -329,6 +331,27 @@ func (w *treeWorld) refilter() {
 		return
 	}
 	w.refilterAs(kv.Pick(w.r, cs), kv.Pick(w.r, treeFilters()))
+}
+
+// refilterVolley: Refilter A, B, A, ... on one node back to back (the last call must win)
+func (w *treeWorld) refilterVolley() {
+	var cs []*tnode
+	for _, n := range w.nodes {
+		if n.refil != nil && !n.closed {
+			cs = append(cs, n)
+		}
+	}
+	if len(cs) == 0 {
+		return
+	}
+	n := kv.Pick(w.r, cs)
+	fs := treeFilters()
+	a, b := kv.Pick(w.r, fs), kv.Pick(w.r, fs)
+	for i := 2 + w.r.Intn(3); i > 0; i-- {
+		w.refilterAs(n, a)
+		a, b = b, a
+	}
+	w.tr.stats["act:refilter-volley"]++
 }
 
 func (w *treeWorld) refilterAs(n *tnode, ft kv.Term) {
